@@ -564,7 +564,7 @@ func checkTreeHandedOver(r *Run, prog *Program, a *Anchors, pfx string) {
 		writes++
 		ok := rootedAtParse(prog, a, fa.Val, 0)
 		desc := describeRoot(prog, fa.Val)
-		inCreate := fa.Fn == a.CreateEv || (bexprHelper(prog, a, fa.Fn) && prog.contextOnly(fa.Fn, func(c *ssa.Function) bool { return c == a.CreateEv }))
+		inCreate := fa.Fn == a.CreateEv || prog.ctorHelper(a, fa.Fn, 0) // (a helper the two constructors share counts)
 		r.Check(pfx+".tree-handover", fa.Fn.Name()+":store:Evaluator."+astField, prog.pos(fa.Instr.Pos()), ok && inCreate,
 			"Evaluator."+astField+" must be written only by CreateEvaluator with the (type-asserted) result of grammar.Parse; here: "+desc)
 	}
